@@ -15,6 +15,7 @@
 use conjure_serde::{json, smile};
 use erased_serde::{Deserializer, Serializer};
 use http::HeaderValue;
+use std::error::Error;
 
 /// An encoding of HTTP bodies.
 pub trait Encoding {
@@ -45,6 +46,13 @@ pub trait SerializerState<'a> {
 pub trait DeserializerState<'de> {
     /// Returns the state's internal deserializer.
     fn deserializer<'a>(&'a mut self) -> Box<dyn Deserializer<'de> + 'a>;
+
+    /// Validates that no data other than the deserialized value remains in the buffer.
+    ///
+    /// The default implementation performs no validation.
+    fn end(&mut self) -> Result<(), Box<dyn Error + Sync + Send>> {
+        Ok(())
+    }
 }
 
 /// An [`Encoding`] using [`conjure_serde::json`](module@conjure_serde::json).
@@ -90,6 +98,10 @@ impl<'de> DeserializerState<'de> for JsonDeserializerState<'de> {
     fn deserializer<'a>(&'a mut self) -> Box<dyn Deserializer<'de> + 'a> {
         Box::new(<dyn Deserializer>::erase(&mut self.deserializer))
     }
+
+    fn end(&mut self) -> Result<(), Box<dyn Error + Sync + Send>> {
+        self.deserializer.end().map_err(Into::into)
+    }
 }
 
 /// An [`Encoding`] using [`conjure_serde::smile`](module@conjure_serde::smile).
@@ -134,5 +146,9 @@ struct SmileDeserializerState<'de> {
 impl<'de> DeserializerState<'de> for SmileDeserializerState<'de> {
     fn deserializer<'a>(&'a mut self) -> Box<dyn Deserializer<'de> + 'a> {
         Box::new(<dyn Deserializer>::erase(&mut self.deserializer))
+    }
+
+    fn end(&mut self) -> Result<(), Box<dyn Error + Sync + Send>> {
+        self.deserializer.end().map_err(Into::into)
     }
 }
